@@ -138,34 +138,42 @@ def check_table(acc, np, hier, T, max_dist, hooks, deep):
                 acc.violation('refit', 'Hierarchical.fit', 'py', dict(tags, what='refit'), case, canon(clusters), repr(second) if isinstance(second, core.Exc) else canon(second))
         # tree variant
         if max_dist == inf:
-            tree = hier.HierarchicalTree(dists_fun=Stub(np, T), dists_options={}, show_progress=False,
-                                         order_hook=hier.Hooks.create_orderhook([1] * n) if 'order' in hooks else None)
-            r1 = core.call(tree.fit, series)
-            acc.trans()
-            acc.valid()
-            whyt = None
-            if isinstance(r1, core.Exc):
-                whyt = repr(r1)
-            else:
-                L = [tuple(x) for x in tree.linkage]
-                finite_all = not tags['has_inf']
-                children = [int(x[0]) for x in L] + [int(x[1]) for x in L]
-                if finite_all and len(L) != n - 1:
-                    whyt = 'linkage has %d rows, expected n-1 = %d' % (len(L), n - 1)
-                elif len(set(children)) != len(children):
-                    whyt = 'a node is a child twice: %r' % (L,)
-                elif any(c < 0 or c >= n + i for i, row in enumerate(L) for c in (int(row[0]), int(row[1]))):
-                    whyt = 'a row refers to a node that does not exist yet: %r' % (L,)
-                elif finite_all and sorted(children) != list(range(2 * n - 2)):
-                    whyt = 'children are not exactly the nodes 0..2n-3: %r' % (L,)
-                elif any(float(L[i][2]) > float(L[i + 1][2]) for i in range(len(L) - 1)):
-                    whyt = 'merge distances in the linkage decrease: %r' % (L,)
-                if whyt is None and finite_all:
-                    r2 = core.call(tree.fit, series)
-                    if isinstance(r2, core.Exc) or [tuple(x) for x in tree.linkage] != L:
-                        whyt = 'second fit on the same tree object differs'
-            if whyt:
-                acc.violation('tree', 'HierarchicalTree.fit', 'py', dict(tags, what='tree'), case, 'single rooted binary tree with n-1 merges', whyt)
+            for wrapped in ((False, True) if 'weight' in hooks else (False,)):
+                if wrapped:
+                    # the tree variant around a model whose own merge hook chooses the prototype (weight hook)
+                    wts = [1 + (i % 2) for i in range(n)]
+                    inner = hier.Hierarchical(Stub(np, T), {}, merge_hook=hier.Hooks.create_weighthook(wts, series),
+                                            order_hook=hier.Hooks.create_orderhook(wts) if 'order' in hooks else None, show_progress=False)
+                    tree = hier.HierarchicalTree(inner)
+                else:
+                    tree = hier.HierarchicalTree(dists_fun=Stub(np, T), dists_options={}, show_progress=False,
+                                               order_hook=hier.Hooks.create_orderhook([1] * n) if 'order' in hooks else None)
+                r1 = core.call(tree.fit, series)
+                acc.trans()
+                acc.valid()
+                whyt = None
+                if isinstance(r1, core.Exc):
+                    whyt = repr(r1)
+                else:
+                    L = [tuple(x) for x in tree.linkage]
+                    finite_all = not tags['has_inf']
+                    children = [int(x[0]) for x in L] + [int(x[1]) for x in L]
+                    if finite_all and len(L) != n - 1:
+                        whyt = 'linkage has %d rows, expected n-1 = %d' % (len(L), n - 1)
+                    elif len(set(children)) != len(children):
+                        whyt = 'a node is a child twice: %r' % (L,)
+                    elif any(c < 0 or c >= n + i for i, row in enumerate(L) for c in (int(row[0]), int(row[1]))):
+                        whyt = 'a row refers to a node that does not exist yet: %r' % (L,)
+                    elif finite_all and sorted(children) != list(range(2 * n - 2)):
+                        whyt = 'children are not exactly the nodes 0..2n-3: %r' % (L,)
+                    elif any(float(L[i][2]) > float(L[i + 1][2]) for i in range(len(L) - 1)):
+                        whyt = 'merge distances in the linkage decrease: %r' % (L,)
+                    if whyt is None and finite_all and not wrapped:
+                        r2 = core.call(tree.fit, series)
+                        if isinstance(r2, core.Exc) or [tuple(x) for x in tree.linkage] != L:
+                            whyt = 'second fit on the same tree object differs'
+                if whyt:
+                    acc.violation('tree', 'HierarchicalTree.fit', 'py', dict(tags, what='tree', wraps_weighted_model=wrapped), dict(case, wraps_weighted_model=wrapped), 'single rooted binary tree with n-1 merges', whyt)
     return len(events)
 
 
